@@ -16,9 +16,12 @@ KWKEYS = ["a", "phi", "r", "select", "k", "theta"]
 FUNCS_NUM = ["sqrt", "exp", "sin", "cos", "tanh", "arctan", "log"]
 ALL_FEATURES = ["target_opts", "type_opts", "tdm", "scalars", "arrays", "array_params",
                 "templates", "regrefs", "loops", "kwargs", "lists", "includes", "measure",
-                "strings", "complex", "whole_array_param"]
+                "strings", "complex", "whole_array_param", "fp_edge"]
 FAIL_KINDS = ["syntax", "undefined", "reserved", "nonint_mode", "bad_cast", "loop_value",
-              "loop_body", "undefined_idx", "inc_missing", "inc_inner", "inc_call"]
+              "loop_body", "undefined_idx", "inc_missing", "inc_inner", "inc_call", "func_type"]
+# arithmetic that leaves the floating-point range (inf / nan with a numpy warning)
+FP_EDGES = ["1/0", "1/0.0", "10.0**400", "exp(1000)", "log(0)", "arcsin(2)", "0.0/0", "-1/0.0",
+            "2.0**2000", "1e308*10", "sqrt(-1.0)", "arccosh(0.5)", "tan(pi/2)*1e300*1e300"]
 
 
 def swarm(rng):
@@ -354,7 +357,12 @@ class ScriptGen:
                 items.append(self.item_parray())
         for _ in range(n):
             k = r.random()
-            if k < 0.18 and "scalars" in self.f:
+            if k < 0.04 and "fp_edge" in self.f:
+                nm = self.free_name()
+                self.defs.append(nm)
+                self.scalars.append((nm, "float"))
+                items.append(["float %s = %s" % (nm, r.choice(FP_EDGES))])
+            elif k < 0.18 and "scalars" in self.f:
                 items.append(self.item_scalar())
             elif k < 0.28 and "arrays" in self.f:
                 items.append(self.item_array())
@@ -415,6 +423,14 @@ def plant_failure(rng, script, kind, pool):
         s["items"].insert(pos, ["for int %s in 0:3" % v, "    Sgate(%s) | %s" % (undefined, v)])
     elif kind == "undefined_idx":
         s["items"].insert(pos, ["Sgate(%s[0]) | 0" % undefined])
+    elif kind == "func_type":
+        # an elementary function applied to something numpy cannot evaluate (a template
+        # parameter, a measured register, a string): TypeError from inside numpy
+        v = r.choice(pool)
+        s["items"].insert(pos, r.choice([["float zf = %s({%s})" % (r.choice(FUNCS_NUM), v)],
+                                         ["Rgate(%s(q0)) | 0" % r.choice(FUNCS_NUM)],
+                                         ['str zs = "abc"', "float zf = %s(zs)" % r.choice(FUNCS_NUM)],
+                                         ["Sgate(1, %s({%s}*2)) | 1" % (r.choice(FUNCS_NUM), v)]]))
     return s
 
 
